@@ -153,6 +153,56 @@ def _splitext(q):
     return q, ""
 
 
+def yaml_scalar(text):
+    """What PyYAML's safe_load answers for a one-line plain scalar (YAML 1.1 implicit resolver): a model of the library, used
+    when the driver hands command-line text to it."""
+    import re
+
+    if not isinstance(text, str):
+        raise Raised("AttributeError")
+    t = text.strip()
+    if "#" in t and re.search(r"(^|\s)#", t):
+        t = re.split(r"(^|\s)#", t)[0].strip()
+    if t[:1] in ("'", '"') and t[-1:] == t[:1] and len(t) >= 2:
+        return t[1:-1]
+    if (t and t[0] in "[{&*!|>%@`") or t.startswith("- ") or t == "-" or re.match(r"[0-9]{4}-[0-9]{1,2}-[0-9]{1,2}", t) or re.search(r":(\s|$)", t) or t.startswith("? "):
+        raise Unfoldable(f"structured YAML text {text!r}")
+    if t in ("", "~", "null", "Null", "NULL"):
+        return None
+    if t in ("yes", "Yes", "YES", "true", "True", "TRUE", "on", "On", "ON"):
+        return True
+    if t in ("no", "No", "NO", "false", "False", "FALSE", "off", "Off", "OFF"):
+        return False
+    u = t.replace("_", "")
+    if re.fullmatch(r"[-+]?0b[0-1_]+", t):
+        return int(u, 2)
+    if re.fullmatch(r"[-+]?0x[0-9a-fA-F_]+", t):
+        return int(u, 16)
+    if re.fullmatch(r"[-+]?0[0-7_]+", t):
+        return int(u, 8)
+    if re.fullmatch(r"[-+]?(0|[1-9][0-9_]*)", t):
+        return int(u)
+    if re.fullmatch(r"[-+]?[1-9][0-9_]*(:[0-5]?[0-9])+", t):
+        sign = -1 if t[0] == "-" else 1
+        v = 0
+        for part in u.lstrip("+-").split(":"):
+            v = v * 60 + int(part)
+        return sign * v
+    if re.fullmatch(r"[-+]?([0-9][0-9_]*)\.[0-9_]*([eE][-+][0-9]+)?", t) or re.fullmatch(r"\.[0-9][0-9_]*([eE][-+][0-9]+)?", t):
+        return float(u)
+    if re.fullmatch(r"[-+]?[0-9][0-9_]*(:[0-5]?[0-9])+\.[0-9_]*", t):
+        sign = -1 if t[0] == "-" else 1
+        v = 0.0
+        for part in u.lstrip("+-").split(":"):
+            v = v * 60 + float(part)
+        return sign * v
+    if re.fullmatch(r"[-+]?\.(inf|Inf|INF)", t):
+        return float("-inf") if t[0] == "-" else float("inf")
+    if t in (".nan", ".NaN", ".NAN"):
+        return float("nan")
+    return t
+
+
 def fold_main(repo, argv, profile_result=None, genotype_raises=None):
     """-> (kind, value, calls): calls = [('genotype', kwargs) | ('profile', args, kwargs) | ('print', text)]"""
     f = repo.func("__main__::main")
@@ -175,7 +225,7 @@ def fold_main(repo, argv, profile_result=None, genotype_raises=None):
         "os.path.basename": lambda q: str(q).rsplit("/", 1)[-1], "os.path.exists": lambda q: True, "open": lambda *a, **k: Obj(close=lambda: None, name=a[0]),
         "script_path": lambda q: q, "exit": lambda code=0: (_ for _ in ()).throw(SystemExit(code)),
         "tempfile.TemporaryDirectory": lambda *a, **k: _Ctx("/scratch/T"), "os.path.splitext": _splitext,
-        "os.system": lambda cmd: calls.append(("system", cmd)) or 0,
+        "os.system": lambda cmd: calls.append(("system", cmd)) or 0, "yaml.safe_load": yaml_scalar,
     }
     funcs["open"] = lambda name, mode="r", *a, **k: (calls.append(("open", name, mode)), _Ctx(Obj(close=lambda: None, name=name, write=lambda t: None)))[1]
     funcs["yaml.dump"] = lambda d, stream=None, *a, **k: (calls.append(("yaml", getattr(stream, "name", None))), f"YAML{d!r}")[1]
